@@ -6,6 +6,7 @@ import (
 	"encoding/json"
 	"fmt"
 	"io"
+	"math/big"
 	"math/rand"
 	"net"
 	"os"
@@ -16,10 +17,15 @@ import (
 
 	"github.com/ethereum/go-ethereum/crypto"
 	"github.com/ethereum/go-ethereum/rlp"
+	"github.com/inconshreveable/log15"
+	g "github.com/zenon-network/go-zenon/chain/genesis/mock"
+	"github.com/zenon-network/go-zenon/chain/nom"
+	"github.com/zenon-network/go-zenon/common"
 	"github.com/zenon-network/go-zenon/common/types"
 	"github.com/zenon-network/go-zenon/p2p"
 	"github.com/zenon-network/go-zenon/p2p/discover"
 	"github.com/zenon-network/go-zenon/protocol"
+	"github.com/zenon-network/go-zenon/vm/embedded/definition"
 
 	"verif/lab/core"
 	"verif/lab/node"
@@ -323,6 +329,7 @@ type wireServer struct {
 	chainID uint64
 	udp     *discover.Table
 	udpAddr *net.UDPAddr
+	fat     types.Hash // a momentum with many account blocks that carry data: 128 copies of it are several MiB
 }
 
 func newKey(r *rand.Rand) *ecdsa.PrivateKey {
@@ -461,6 +468,15 @@ func (s *wireServer) step(c *wireClient, st wireStep) (to, reply string) {
 				return "closed", "none"
 			}
 			return "ready", "none"
+		case st.In == "timed-request":
+			hashes := make([]types.Hash, 128)
+			for i := range hashes {
+				hashes[i] = s.fat
+			}
+			t0 := time.Now()
+			p2p.Send(c.rw, 16+5, hashes)
+			m, ok := c.waitMsg(16+6, 60*time.Second)
+			fmt.Fprintf(os.Stderr, "timed-request: answered=%v size=%d after %v\n", ok, m.Size, time.Since(t0))
 		case st.In == "deaf-requests":
 			// ask for the largest momentum the node has, 128 times per request, several requests; stop reading; keep pinging.
 			// The node cannot write its replies; its write time-out (20 s) must end the session. Seen from here: a ping fails.
@@ -474,9 +490,9 @@ func (s *wireServer) step(c *wireClient, st wireStep) (to, reply string) {
 			defer close(deaf)
 			hashes := make([]types.Hash, 128)
 			for i := range hashes {
-				hashes[i] = s.genesis
+				hashes[i] = s.fat
 			}
-			for i := 0; i < 12; i++ {
+			for i := 0; i < 6; i++ {
 				c.tap.Conn.SetWriteDeadline(time.Now().Add(3 * time.Second))
 				if err := p2p.Send(c.rw, 16+5, hashes); err != nil {
 					break
@@ -777,6 +793,32 @@ func wireChild(a wireArg) (*wireResult, error) {
 	if err := p.ProduceN(40); err != nil {
 		return nil, err
 	}
+	// one momentum with fifty account blocks of 1 200 bytes of data each
+	if _, err := p.Submit(&nom.AccountBlock{BlockType: nom.BlockTypeUserSend, Address: g.User1.Address, ToAddress: types.PlasmaContract, TokenStandard: types.QsrTokenStandard,
+		Amount: big.NewInt(3000 * 100000000), Data: definition.ABIPlasma.PackMethodPanic(definition.FuseMethodName, g.User1.Address)}, g.User1); err != nil {
+		return nil, fmt.Errorf("wire node: fuse refused: %v", err)
+	}
+	if err := p.ProduceN(3); err != nil {
+		return nil, err
+	}
+	for i := 0; i < 50; i++ {
+		if _, err := p.Submit(&nom.AccountBlock{BlockType: nom.BlockTypeUserSend, Address: g.User1.Address, ToAddress: g.User2.Address, TokenStandard: types.ZnnTokenStandard,
+			Amount: big.NewInt(1), Data: bytes.Repeat([]byte{byte(i)}, 1200)}, g.User1); err != nil {
+			return nil, fmt.Errorf("wire node: data block %d refused: %v", i, err)
+		}
+	}
+	if err := p.ProduceN(2); err != nil {
+		return nil, err
+	}
+	var fat types.Hash
+	for h := p.Height(); h > 1 && fat.IsZero(); h-- {
+		if m := p.MomentumAt(h); len(m.Content) >= 50 {
+			fat = m.Hash
+		}
+	}
+	if fat.IsZero() {
+		return nil, fmt.Errorf("wire node: the momentum with fifty data blocks was not produced")
+	}
 	node.Clock.Set(p.Frontier().Timestamp.Add(time.Minute))
 	pm := protocol.NewProtocolManager(1, p.Chain.ChainIdentifier(), p.Bridge)
 	pm.Start()
@@ -791,7 +833,7 @@ func wireChild(a wireArg) (*wireResult, error) {
 	}
 	self := tab.Self()
 	s := &wireServer{srv: srv, id: discover.PubkeyID(&key.PublicKey), genesis: p.Genesis.GetGenesisMomentum().Hash, chainID: p.Chain.ChainIdentifier(),
-		udp: tab, udpAddr: &net.UDPAddr{IP: net.IPv4(127, 0, 0, 1), Port: int(self.UDP)}}
+		udp: tab, udpAddr: &net.UDPAddr{IP: net.IPv4(127, 0, 0, 1), Port: int(self.UDP)}, fat: fat}
 	res := &wireResult{MaxAlloc: map[string]uint64{}, Replies: map[string]int{}}
 	if err := s.control(r); err != nil {
 		return nil, fmt.Errorf("the lab's well-behaved remote is not served on a fresh node: %v", err)
@@ -969,6 +1011,9 @@ func wireCheck(run *core.Run) {
 	run.Set("wire_largest_allocation_around_an_input_bytes", maxAlloc)
 	// the stated limit: 10 MiB per message (1 MiB of slack for whatever else the process does meanwhile)
 	for in, v := range maxAlloc {
+		if in == "deaf-requests" {
+			continue // six requests, each answered with a message of almost the limit: not one message
+		}
 		if v > 11*1024*1024 {
 			run.Report("C15:allocates-more-than-the-message-limit-on-"+in, fmt.Sprintf("while handling input %s the node allocates %d bytes; the protocol's stated limit is 10 MiB per message", in, v),
 				map[string]interface{}{"kind": "wire-allocation", "input": in, "bytes": v})
@@ -978,6 +1023,21 @@ func wireCheck(run *core.Run) {
 
 // DebugDatagram is used by cmd/dbg2.
 func DebugDatagram(in string) string {
+	if strings.HasPrefix(in, "wire:") {
+		b := wireBehaviour{Steps: []wireStep{{In: "auth-valid", At: "tcp", To: "enc", Reply: "auth-ack"}, {In: "hs-valid", At: "enc", To: "ready", Reply: "status"}}}
+		for _, x := range strings.Split(in[5:], ",") {
+			b.Steps = append(b.Steps, wireStep{In: x, At: "ready", To: "closed", Reply: "none"})
+		}
+		node.Quiet()
+		if os.Getenv("VERIF_DEBUG") != "" {
+			h := log15.StreamHandler(os.Stderr, log15.LogfmtFormat())
+			common.ProtocolLogger.SetHandler(h)
+			common.P2PLogger.SetHandler(h)
+		}
+		t0 := time.Now()
+		res, err := wireChild(wireArg{Behaviours: []wireBehaviour{b}, Seed: 10})
+		return fmt.Sprint(res, err, time.Since(t0))
+	}
 	if strings.HasPrefix(in, "child:") {
 		var b wireBehaviour
 		for _, x := range strings.Split(in[6:], ",") {
